@@ -9,6 +9,7 @@ import KyupyVerif.Drv.CircObj
 import KyupyVerif.Drv.Netlist
 import KyupyVerif.Drv.NetText
 import KyupyVerif.Drv.Transform
+import KyupyVerif.Drv.ImplCert
 import KyupyVerif.Drv.WaveStrip
 import KyupyVerif.Drv.Grid
 import KyupyVerif.Drv.WaveIO
@@ -29,6 +30,7 @@ def extHandlers : List (String → List String → Option String) := [
   KV.Drv.Netlist.handle,
   KV.Drv.NetText.handle,
   KV.Drv.Transform.handle,
+  KV.Drv.ImplCert.handle,
   KV.Drv.WaveStrip.handle,
   KV.Drv.Grid.handle,
   KV.Drv.WaveIO.handle
